@@ -224,6 +224,22 @@ CHECKS = {
         "pinned by tests) and K04 (field objects rebuilt) are listed in known_findings.json.",
         "DESIGN.md 4/C16",
     ),
+    "C18": (
+        "exploration",
+        "complete enumeration of request lists up to a length x side x templates x ports-per-line "
+        "x range policy x platform x switch; generated lines read by the platform's independent "
+        "reader and compared with the requested set exactly",
+        "Every comma list of <=2 (quick) / <=3 (thorough) tokens over 12 port tokens (singles, a "
+        "named port, 65535, a-b ranges incl. 7-7 and the top of the range, the empty token) for both "
+        "sides, 6 templates, port_count 1..3, both range policies, both platforms, names/numbers; "
+        "both sides in one call; protocol requests <=3 tokens x 3 templates: each call is a "
+        "documented refusal or every line is valid for the platform, carries <= port_count eq "
+        "operands, follows the range-versus-eq policy, equals the template outside the generated "
+        "field, and the union of the generated field equals the requested set.",
+        "Trusted: readers, request-string semantics in the check. Known finding K05 (range template "
+        "+ two single ports per line) is listed in known_findings.json.",
+        "DESIGN.md 4/C18",
+    ),
     "C19": (
         "exploration",
         "complete enumeration of (source expression, destination expression) pairs x context "
